@@ -35,10 +35,11 @@ def spans(T: int, zero: bool = True) -> List[Tuple[int, int]]:
     return [(s, e) for s in range(T + 1) for e in range(s if zero else s + 1, T + 1)]
 
 
-def item_event(item: Sequence[Any], corr: int) -> Dict[str, Any]:
+def item_event(item: Sequence[Any], corr: int, scale: int = 1, streams: Any = None) -> Dict[str, Any]:
     s, e, ty, ni, cp = item
+    s, e = s * scale, e * scale
     name = NAMES[ty][ni]
-    stream = STREAM[ty] + 2 * 0
+    stream = (streams or {}).get(ty, STREAM[ty])
     if CATS[ty] == "gpu_memcpy":
         if name.startswith("Memset"):
             return kineto.memset(name, EPOCH + s, e - s, stream, corr)
@@ -51,17 +52,18 @@ def item_event(item: Sequence[Any], corr: int) -> Dict[str, Any]:
 
 
 def events_for(items: Sequence[Sequence[Any]], with_launch: bool = True, no_corr: bool = False,
-               spread: bool = False) -> List[Dict[str, Any]]:
+               spread: bool = False, scale: int = 1, streams: Any = None) -> List[Dict[str, Any]]:
     """entry 0 = a host operator at EPOCH; then per item (launch call,) activity.
     no_corr: the activities carry no correlation id at all (an optional field; nothing launches them in the file)
-    spread: the launch calls are issued one after the other before EPOCH instead of all at EPOCH"""
+    spread: the launch calls are issued one after the other before EPOCH instead of all at EPOCH
+    scale: grid times are multiplied by it (very long traces); streams: type -> stream id override (e.g. the default stream 0)"""
     evs = [kineto.cpu_op("aten::root", EPOCH, 1)]
     corr = 10
     n = len(items)
     for k, it in enumerate(items):
         if with_launch and not no_corr:
             evs.append(kineto.runtime("cudaLaunchKernel", EPOCH - 2 * (n - k) if spread else EPOCH, 1, corr))
-        e = item_event(it, corr)
+        e = item_event(it, corr, scale, streams)
         if no_corr:
             e["args"].pop("correlation", None)
             e["args"].pop("External id", None)
